@@ -131,10 +131,10 @@ pub fn c15(quick: bool, seed: u64) -> Outcome {
 pub fn c16(quick: bool, seed: u64) -> Outcome {
     let mut o = Outcome::new(&format!("{}while the model says pressed: |value() - reference| <= 1e-5 + capacity*2^-23 with the reference computed in f64 from the samples of the current run only (oldest capacity-discard of the last capacity samples -> mean -> pull-up correction -> rescale), value in [0,1] and between the corrected min/max; while not pressed value() is bit-identical to the last pressed value. Metamorphic re-runs: (a) all samples of earlier runs replaced => bit-identical value() during the last press; (b) the newest `discard` samples replaced => bit-identical; (c) one contributing sample raised => value not smaller (strictly larger for windows <= 64). non-trivial = pressed polls after the ring buffer wrapped within the press in a history whose previous run was at a level differing by > 0.1 (histories) / press longer than L* (perturbation cases); distinct by hash", GEN));
     o.assumptions.push("pull-up >= divider resistance; samples never closer than 1e-3 to the in-range boundary".into());
-    let cases = if quick { 10_000 } else { 100_000 };
+    let cases = if quick { 10_000 } else { 40_000 };
     let part = pt_run("ribbon_history", || ribbon_case(6), cases, seed, 16, 1500, |c, st| run_case(c, C16, st).map(|i| i.nontrivial));
     o.absorb(part);
-    let cases = if quick { 12_000 } else { 100_000 };
+    let cases = if quick { 12_000 } else { 50_000 };
     let part = pt_run("ribbon_perturb", perturb_case, cases, seed, 161, 1500, |c, st| run_perturb(c, st).map(|i| i.nontrivial));
     o.absorb(part);
     o
